@@ -103,6 +103,22 @@ def triggers(case):
                 out.add('selfjoin-elimination')
         if m['k'] == 'const' and m.get('ck', 'iri') == 'iri' and any(t['id'] == m['v'] for t in case['doc']):
             out.add('constant-equals-triples-map-id')
+    # quoted triples maps: a frame that already went through a join is joined again (parent_ columns overlap)
+    by_id = {t['id']: t for t in case['doc']}
+    def joins_in(tid, depth=0):
+        t = by_id.get(tid)
+        if t is None or depth > 6:
+            return 0
+        n = 0
+        if t['subj']['k'] == 'quoted':
+            n += (1 if t.get('sjoins') else 0) + (joins_in(t['subj']['v'], depth + 1) if not t.get('sjoins') else 0)
+        for p in t.get('poms', []):
+            for o in p['objs']:
+                if o['m']['k'] == 'quoted':
+                    n += (1 if o.get('joins') else 0) + (joins_in(o['m']['v'], depth + 1) if not o.get('joins') else 0)
+        return n
+    if any(joins_in(t['id']) >= 2 for t in case['doc']):
+        out.add('star-repeated-join')
     for t in case['doc']:
         for p in t.get('poms', []):
             kinds = set('parent' if o['m']['k'] == 'parent' else 'ord' for o in p['objs'])
@@ -141,6 +157,11 @@ class Batch:
         return out
 
 
+# findings whose failure is a schema-level exception that the row-wise model cannot exhibit on empty frames: the exception
+# text is part of the recorded shape
+EXC_SHAPES = {'star-repeated-join': ['columns overlap', 'duplicate columns', 'both an index level and a column label']}
+
+
 def judge(res, rec, known_ids, prop_triggers=None):
     """Acceptance rule.  rec: one dict of Batch.run.  Adds to res.violations / res.disagreements.  Returns a tag."""
     case, I, M, S = rec['case'], rec['impl'], rec['model'], rec['spec']
@@ -161,9 +182,9 @@ def judge(res, rec, known_ids, prop_triggers=None):
         return {'impl': brief(a), 'other': brief(b)}
     if not agree_spec:
         # the property's own oracle fails on this input
-        if agree_model and trig:
-            key = sorted(trig)[0] if len(trig) == 1 else '+'.join(sorted(trig))
-            hit = [t for t in sorted(trig) if t in known_ids]
+        exc_hit = [t for t in sorted(trig) if t in known_ids and I[0] == 'exc' and any(m in (I[2] or '') for m in EXC_SHAPES.get(t, []))]
+        if (agree_model and trig) or exc_hit:
+            hit = exc_hit or [t for t in sorted(trig) if t in known_ids]
             if hit:
                 for t in hit:
                     res.violations.append({'key': t, 'sig': t, 'what': 'recorded finding reproduced', 'replay': case})
